@@ -13,11 +13,15 @@
                            kinds only, every component of the wire-segment graph has at most W segments, and the product
                            of the per-cut factors (gamma, 4, 4, 16) is c.  Independent of all search data structures.
      pruning_sound_for ... every such assignment is matched in cost by a goal reachable from start_of i: neither the guards /
-                           no-merge clauses nor the wire-cut budget exclude an optimum (the statement c08_pruning_sound)
+                           no-merge clauses nor the wire-cut budget exclude an optimum.  PROVED for all well-formed gate lists
+                           (c08_pruning_sound, exchange argument of Proofs/BestFirstExchange*.v); the theorems that take it as a
+                           hypothesis are kept, their hypothesis-free versions are the ..._unbounded theorems
+     circ_wf c             every multi-qubit gate of the circuit acts on exactly two distinct qubits (Proofs/CutFinderCirc.v)
      spec_within i         some assignment that meets the width limit costs at most max_gamma ("max_gamma >= optimum")
      gammas_ok_in i        every gate gamma of the request is >= 1 (true for kappa of every QPD basis: C15; monitored) *)
 From Coq Require Import QArith String.
-From CKT Require Import Model.CutFinder Proofs.BestFirstP Proofs.BestFirstSpec Proofs.BestFirstFuel Extracted.Facts.
+From CKT Require Import Model.CutFinder Proofs.CutFinderCirc Proofs.BestFirstP Proofs.BestFirstSpec Proofs.BestFirstFuel
+  Proofs.BestFirstExchangeFinal Extracted.Facts.
 Close Scope Q_scope.
 
 (* ---- (1) every action multiplies gamma_UB by a factor >= 1 ---- *)
@@ -69,6 +73,36 @@ Theorem c08_flag_sound_guarded : forall fuel i r, gammas_ok_in i -> find_cuts_fu
   (md_overhead (fr_meta r) <= cost g * cost g)%Q.
 Proof. exact flag_sound_guarded. Qed.
 
+(* ---- (3a) pruning soundness, UNBOUNDED: any number of qubits and gates, any width limit, any cut-kind combination, any
+   max_gamma.  For every assignment A (leave / gate cut / left / right / both per gate, permitted kinds only) that meets the
+   width limit in the wire-segment specification there is a path of guarded actions (next_states: width checks, r1 == r2
+   guards, can_expand_subcircuit, W < 2 guard, no-merge clauses, can_add_wires under the budget
+   min(#gate inputs, max_wire_cuts_gamma(greedy gamma or max_gamma))) from the start state of the search to a goal state
+   whose cost is at most the cost of A.
+   Proof (Proofs/BestFirstExchange.v, ...Sim.v, ...Main.v, ...Shrink.v, ...Final.v): A is normalised against the FINAL
+   components of its own wire segments (a cut whose sides end in one final component becomes leave, a both-wires cut with
+   one useless side becomes a single wire cut); the search follows the normalised assignment under the invariant
+   "classes of the search state refine final components of A, clause sides lie in different final components,
+   per final component the search has no more wires than A has segments"; 4^(wire cuts) <= cost bounds the wire cuts by
+   max_wire_cuts_gamma; when A costs more than the greedy incumbent, the greedy path itself exists under the smaller budget. *)
+Theorem c08_pruning_sound : forall nq W gl wl gs mg, gammas_ok gs ->
+  (forall g, In g gs -> length (g_qubits g) = 2 /\ q1_of g <> q2_of g /\ q1_of g < nq /\ q2_of g < nq) ->
+  pruning_sound_for gs gl wl W mg nq.
+Proof. exact pruning_sound. Qed.
+
+(* for the gate list find_cuts derives from a circuit whose multi-qubit gates act on two distinct qubits *)
+Theorem c08_pruning_sound_request : forall i, gammas_ok_in i -> circ_wf (fi_circ i) ->
+  pruning_sound_for (fa_gates (fa_of i)) (fi_gate_lo i) (fi_wire_lo i) (fi_W i) (fi_max_gamma i) (nq_of i).
+Proof. exact pruning_sound_request. Qed.
+
+(* flag soundness against the specification without any hypothesis on the search space: a reported minimum is the
+   minimum over all assignments of permitted kinds that meet the width limit *)
+Theorem c08_flag_sound_unbounded : forall fuel i r, gammas_ok_in i -> circ_wf (fi_circ i) ->
+  find_cuts_full fuel i = Val r -> md_minimum_reached (fr_meta r) = true ->
+  forall A c, assignment_cost (nq_of i) (fi_W i) (fi_gate_lo i) (fi_wire_lo i) (sgates_of (fa_gates (fa_of i))) A = Some c ->
+  (md_overhead (fr_meta r) <= c * c)%Q.
+Proof. exact flag_sound_unbounded. Qed.
+
 (* against the specification; the hypothesis pruning_sound_for is c08_pruning_sound for this request *)
 Theorem c08_flag_sound : forall fuel i r, gammas_ok_in i ->
   pruning_sound_for (fa_gates (fa_of i)) (fi_gate_lo i) (fi_wire_lo i) (fi_W i) (fi_max_gamma i) (nq_of i) ->
@@ -84,9 +118,8 @@ Proof. exact flag_sound_spec. Qed.
    The same statement for 1..4 gates (14 510 circuits) is proved in Proofs/BestFirstSpec4.v (pruning_sound_bounded4,
    flag_sound_bounded4, unrestricted_bounded4, seed_independent_bounded4; ~4 CPU-minutes of vm_compute, closed under the global context) but kept OUT of this file's
    cone because `coqchk` re-checks vm_compute casts ~18x slower (over an hour for that part).
-   c08_pruning_sound_open (not proved; never contradicted by the brute-force oracle of harness/c08.py):
-     forall gs gl wl W mg nq, gammas_ok gs -> (gl || wl = true) -> well-formed two-qubit gates on qubits < nq ->
-       pruning_sound_for gs gl wl W mg nq.                                                                   *)
+   These finite-domain theorems are now special cases of c08_pruning_sound; they are kept as an independent check
+   (complete enumeration, no exchange argument).                                                             *)
 Theorem c08_pruning_sound_bounded : forall lab c used, In (c, used) (circuits_upto 4 [3%Q; 7%Q] 3) ->
   forall nq W gl wl mg, used <= nq <= 4 -> 1 <= W <= 4 -> In (gl, wl) [(true, false); (false, true); (true, true)] ->
   pruning_sound_for (gates_from lab 0 c) gl wl W mg nq.
@@ -140,7 +173,19 @@ Theorem c08_seed_independent_spec : forall fuel1 fuel2 i t1 t2 r1 r2, gammas_ok_
   (md_overhead (fr_meta r1) == md_overhead (fr_meta r2))%Q.
 Proof. exact seed_independent_spec. Qed.
 
-(* ... and without that hypothesis on the finite domain *)
+(* ... and without that hypothesis, unbounded *)
+Theorem c08_unrestricted_unbounded : forall fuel i r, gammas_ok_in i -> circ_wf (fi_circ i) ->
+  find_cuts_full fuel i = Val r -> fi_max_backjumps i = None -> spec_within i ->
+  md_minimum_reached (fr_meta r) = true.
+Proof. exact unrestricted_unbounded. Qed.
+
+Theorem c08_seed_independent_unbounded : forall fuel1 fuel2 i t1 t2 r1 r2, gammas_ok_in i -> circ_wf (fi_circ i) ->
+  fi_max_backjumps i = None -> spec_within i ->
+  find_cuts_full fuel1 (with_tape i t1) = Val r1 -> find_cuts_full fuel2 (with_tape i t2) = Val r2 ->
+  (md_overhead (fr_meta r1) == md_overhead (fr_meta r2))%Q.
+Proof. exact seed_independent_unbounded. Qed.
+
+(* ... and on the finite domain by enumeration *)
 Theorem c08_unrestricted_bounded : forall fuel i r lab c used, In (c, used) (circuits_upto 4 [3%Q; 7%Q] 3) ->
   fa_gates (fa_of i) = gates_from lab 0 c -> used <= nq_of i <= 4 -> 1 <= fi_W i <= 4 ->
   In (fi_gate_lo i, fi_wire_lo i) [(true, false); (false, true); (true, true)] ->
@@ -208,6 +253,12 @@ Proof.
   split; [exact R|split; [exact Gg|now apply Qleb_true]].
 Qed.
 
+(* the witness circuit is well-formed, so the unbounded theorems apply to it *)
+Example c08_ex_circ_wf : circ_wf (fi_circ (f3_input 3 (fun _ => 0%Q))).
+Proof.
+  intros x [<-|[<-|[]]] _; (split; [reflexivity|]); repeat constructor; cbn; intuition discriminate.
+Qed.
+
 Example c08_ex_spec_within : spec_within (f3_input 3 (fun _ => 0%Q)).
 Proof. exists [CutGate; Leave], (1 * 3 * 1)%Q. split; [reflexivity|discriminate]. Qed.
 
@@ -234,6 +285,11 @@ Print Assumptions c08_dijkstra.
 Print Assumptions c08_frontier_invariant.
 Print Assumptions c08_flag_sound_guarded.
 Print Assumptions c08_flag_sound.
+Print Assumptions c08_pruning_sound.
+Print Assumptions c08_pruning_sound_request.
+Print Assumptions c08_flag_sound_unbounded.
+Print Assumptions c08_unrestricted_unbounded.
+Print Assumptions c08_seed_independent_unbounded.
 Print Assumptions c08_pruning_sound_bounded.
 Print Assumptions c08_flag_sound_bounded.
 Print Assumptions c08_unrestricted.
